@@ -1636,7 +1636,8 @@ Proof.
   - cbn. split; auto.
   - destruct (flag_true (Fs st k0)) eqn:Efl.
     + rewrite (add_field_skip card st k0 v0 Efl). destruct (IH st) as (I1 & I2). cbn zeta. split; auto.
-      intros k. rewrite I1. cbn [get]. destruct (bytes_eqb k0 k) eqn:E; [|reflexivity].
+      intros k. rewrite I1. change (get k ((k0, v0) :: r)) with (if bytes_eqb k0 k then Some v0 else get k r).
+      destruct (bytes_eqb k0 k) eqn:E; [|reflexivity].
       apply bytes_eqb_eq in E. subst k. rewrite Efl. destruct (get k0 r); reflexivity.
     + rewrite (add_field_go card st k0 v0 Efl).
       destruct (IH (add_field_core false card st (k0, v0))) as (I1 & I2).
@@ -1644,12 +1645,18 @@ Proof.
       destruct (add_field_core_misc card st (k0, v0)) as (M1 & _).
       destruct (add_field_core_same card st k0 v0) as [_ A2].
       cbn zeta. split; [|rewrite I2; exact S3].
-      intros k. rewrite I1. cbn [get]. destruct (bytes_eqb k0 k) eqn:E.
+      intros k. rewrite I1. change (get k ((k0, v0) :: r)) with (if bytes_eqb k0 k then Some v0 else get k r).
+      destruct (bytes_eqb k0 k) eqn:E.
       * apply bytes_eqb_eq in E. subst k. rewrite A2, Efl. cbn [flag_true].
         destruct (get k0 r); exact S1.
       * assert (Hne : k0 <> k) by (intro; subst; rewrite bytes_eqb_refl in E; discriminate).
         destruct (add_field_core_other card st k0 v0 k Hne) as [_ B2].
-        rewrite (S2 k Hne), B2, M1, S3. reflexivity.
+        match goal with |- context [st_seen ?X] =>
+          replace (get k (st_seen X)) with (get k (st_seen st)) by (symmetry; apply S2; exact Hne);
+          replace (Fs X k) with (Fs st k) by (symmetry; exact B2);
+          replace (st_rc X) with (st_rc st) by (symmetry; exact M1);
+          replace (st_total X) with (st_total st) by (symmetry; exact S3)
+        end. reflexivity.
 Qed.
 
 Lemma end_backfill_seen rc total inb : forall cols seen, NoDup (map fst inb) ->
@@ -1721,7 +1728,7 @@ Lemma seen_event_inv k e cur flag vs rc total :
 Proof.
   intros [H1 H2] Hnull Hrc Htot Hfl. unfold seen_event, col_event, fget, seen_field. cbn [fst snd].
   destruct (get k e) as [v|]; cbn [snd].
-  - split; [discriminate|]. intros s Hs Hcons _. inversion Hs as [Hs']. clear Hs.
+  - split; [discriminate|]. intros s Hs Hcons _. injection Hs as Hs'.
     destruct flag as [b|].
     + (* the column is in the block already *)
       destruct (seen_val_mono _ _ _ _ Hs' Hcons) as [[Hc|Hc] Hl]; [exfalso; apply H1; [discriminate|exact Hc]|].
@@ -1732,16 +1739,423 @@ Proof.
       * (* first appearance in the middle of the block: back-filled nulls, then the value *)
         apply N.eqb_neq in E0.
         destruct (seen_val_mono _ _ _ _ Hs' Hcons) as [[Hc|Hc] Hl]; [discriminate|].
-        inversion Hc as [Hc']. assert (Hcons1 : seen_val cur 1 total <> INCONSISTENT) by (rewrite Hc'; exact Hcons).
+        injection Hc as Hc'. assert (Hcons1 : seen_val cur 1 total <> INCONSISTENT) by (rewrite Hc'; exact Hcons).
         destruct (seen_val_mono _ _ _ _ Hc' Hcons) as [_ H1s].
         rewrite (Hnull eq_refl). apply Forall_snoc; [|exact Hl].
         apply Forall_forall. intros x Hx. apply repeat_spec in Hx. subst x. exact H1s.
   - destruct flag as [[|]|]; cbn [snd].
     + congruence.
-    + split; [discriminate|]. intros s Hs Hcons _. inversion Hs as [Hs']. clear Hs.
+    + split; [discriminate|]. intros s Hs Hcons _. injection Hs as Hs'.
       destruct (seen_val_mono _ _ _ _ Hs' Hcons) as [[Hc|Hc] Hl]; [exfalso; apply H1; [discriminate|exact Hc]|].
       apply Forall_snoc; [apply (H2 s Hc Hcons); discriminate | exact Hl].
     + split; [congruence|]. intros s _ _ Hf. congruence.
 Qed.
 
 End Seen.
+
+(* raw walk for values whose record length the switch gets right whatever their payload *)
+Definition reclen_ok (v : cval) : Prop :=
+  forall rest, reclen (enc_val v ++ rest) = Some (N.of_nat (length (enc_val v))).
+
+Lemma reclen_ok_wf v : wfv v -> reclen_ok v.
+Proof. intros W rest. apply reclen_agrees. exact W. Qed.
+
+Lemma reclen_ok_nostr v : is_str v = false -> reclen_ok v.
+Proof. intros H rest. destruct v; try discriminate; rewrite enc_val_length; reflexivity. Qed.
+
+Lemma raw_roundtrip_gen vs : Forall reclen_ok vs ->
+  raw_records INCONSISTENT (length vs) (concat (map enc_val vs)) = Some (map enc_val vs).
+Proof.
+  induction 1 as [|v vs W Hvs IH]; [reflexivity|].
+  cbn [length map concat].
+  assert (Hstep : forall n' tail, raw_records INCONSISTENT (S n') (enc_val v ++ tail) =
+     match n' with
+     | O => Some [enc_val v]
+     | _ => match tail with [] => None | _ => option_map (cons (enc_val v)) (raw_records INCONSISTENT n' tail) end
+     end).
+  { intros n' tail. cbn [raw_records]. rewrite rec_len_inconsistent, W.
+    replace (N.of_nat (length (enc_val v ++ tail)) <? N.of_nat (length (enc_val v))) with false
+      by (symmetry; apply N.ltb_ge; rewrite app_length; lia).
+    rewrite Nat2N.id, firstn_app_exact, skipn_app_exact. reflexivity. }
+  rewrite Hstep.
+  destruct vs as [|v' vs']; [reflexivity|].
+  cbn [length] in *. destruct (concat (map enc_val (v' :: vs'))) eqn:E; [exact (False_ind _ (concat_enc_nonempty _ _ E))|].
+  cbv beta iota. rewrite IH. reflexivity.
+Qed.
+
+Lemma shortcut_sound_gen csz vs :
+  0 < csz -> csz <> INCONSISTENT -> Forall (len_is csz) vs ->
+  raw_records csz (length vs) (concat (map enc_val vs)) = Some (map enc_val vs).
+Proof.
+  intros H0 Hi Hl. induction vs as [|v vs IH]; [reflexivity|].
+  inversion Hl as [|? ? L Hl']; subst. unfold len_is in L. subst csz.
+  cbn [length map concat].
+  assert (Hstep : forall n' tail, raw_records (N.of_nat (length (enc_val v))) (S n') (enc_val v ++ tail) =
+     match n' with
+     | O => Some [enc_val v]
+     | _ => match tail with [] => None | _ => option_map (cons (enc_val v)) (raw_records (N.of_nat (length (enc_val v))) n' tail) end
+     end).
+  { intros n' tail. cbn [raw_records]. unfold rec_len.
+    replace (0 <? N.of_nat (length (enc_val v))) with true by (symmetry; apply N.ltb_lt; exact H0).
+    replace (N.of_nat (length (enc_val v)) =? INCONSISTENT) with false by (symmetry; apply N.eqb_neq; exact Hi).
+    cbn [andb negb].
+    replace (N.of_nat (length (enc_val v ++ tail)) <? N.of_nat (length (enc_val v))) with false
+      by (symmetry; apply N.ltb_ge; rewrite app_length; lia).
+    rewrite Nat2N.id, firstn_app_exact, skipn_app_exact. reflexivity. }
+  rewrite Hstep.
+  destruct vs as [|v' vs']; [reflexivity|].
+  cbn [length] in *. specialize (IH Hl').
+  destruct (concat (map enc_val (v' :: vs'))) eqn:E; [exact (False_ind _ (concat_enc_nonempty _ _ E))|].
+  cbv beta iota. rewrite IH. reflexivity.
+Qed.
+
+Section SeenSegment.
+Variable fc : fconv.
+Hypothesis ff_short : forall b, N.of_nat (length (ff fc b)) < 65533.
+Variable card : N.
+Hypothesis card_u16 : card < 65536.
+
+Record SBInv (st : store) (evs : list event) : Prop := {
+  sb_col : forall k, SInv (get k (st_seen st)) (Fs st k) (colview k evs);
+  sb_tot : st_rc st <= st_total st
+}.
+
+Lemma col_event_flag k rc e cw flag :
+  snd (col_event card k rc e (cw, flag)) = snd (col_event card k rc e (empty_cw, flag)).
+Proof. unfold col_event. cbn [fst snd]. destruct (get k e); [reflexivity|]. destruct flag as [[|]|]; reflexivity. Qed.
+
+Lemma sbinv_step st evs e : BInv card st evs -> SBInv st evs -> SBInv (add_event false card st e) (evs ++ [e]).
+Proof.
+  intros [B1 B2 B3 B4 B5 B6 B7] [S1 S2].
+  destruct (add_event_spec card st e B2 B5) as (A1 & A2 & _).
+  destruct (add_event_seen card st e B2 B5) as (E1 & E2).
+  constructor.
+  - intros k. rewrite E1.
+    specialize (A1 k). apply (f_equal snd) in A1. cbn [snd] in A1. rewrite A1, col_event_flag.
+    unfold colview. rewrite map_app. cbn [map].
+    apply seen_event_inv.
+    + apply S1.
+    + intros Hf. specialize (B1 k). unfold ColInv in B1. cbn [fst snd] in B1. rewrite Hf in B1. apply B1.
+    + unfold colview. rewrite map_length. exact B3.
+    + exact S2.
+    + apply B2.
+  - rewrite A2, E2. lia.
+Qed.
+
+Lemma sbinv_fold evs : forall st done, BInv card st done -> SBInv st done ->
+  Forall (fun e => event_ok e = true) evs ->
+  SBInv (fold_left (add_event false card) evs st) (done ++ evs).
+Proof.
+  induction evs as [|e evs IH]; intros st done B S H; cbn [fold_left].
+  - rewrite app_nil_r. exact S.
+  - inversion H as [|? ? He Hes]; subst.
+    replace (done ++ e :: evs) with ((done ++ [e]) ++ evs) by (rewrite <- app_assoc; reflexivity).
+    apply IH; auto. apply (binv_step fc ff_short card card_u16); auto. apply sbinv_step; auto.
+Qed.
+
+Lemma sbinv_start st : block_start st -> SBInv st [].
+Proof.
+  intros (H1 & _ & H3 & _). constructor.
+  - intros k. unfold SInv, Fs. rewrite H1. cbn. split; congruence.
+  - rewrite H3. lia.
+Qed.
+
+(* consolidateColumnTypes together with the update of AllSeenColumnSizes, seen from column k *)
+Lemma consolidate_seen_spec ks : forall cols blooms ris seen, NoDup ks ->
+  let '(cols', _, _) := consolidate fc ks cols blooms ris in
+  let seen' := consolidate_seen fc ks cols blooms ris seen in
+  forall k,
+    (get k seen' = get k seen /\
+     (get_cw k cols' = get_cw k cols \/
+      (In k ks /\ mem k ris = true /\
+       exists b', to_numbers fc (S (length (cw_buf (get_cw k cols)))) (cw_buf (get_cw k cols)) = Some b' /\
+                  get_cw k cols' = fresh_cw b')))
+    \/ (In k ks /\ get k seen' = Some INCONSISTENT).
+Proof.
+  induction ks as [|k0 r IH]; intros cols blooms ris seen Hnd; cbn [consolidate consolidate_seen].
+  - intros k. left. auto.
+  - inversion Hnd as [|? ? Hnotin Hnd']; subst.
+    destruct (mem k0 blooms && mem k0 ris) eqn:E.
+    + apply andb_true_iff in E as [E1 E2]. cbv zeta.
+      set (b := cw_buf (get_cw k0 cols)).
+      destruct (to_numbers fc (S (length b)) b) as [b'|] eqn:En.
+      * specialize (IH (put k0 (fresh_cw b') cols) (del k0 blooms) ris seen Hnd').
+        destruct (consolidate fc r (put k0 (fresh_cw b') cols) (del k0 blooms) ris) as [[cols' bl'] ri'].
+        cbv zeta in *. intros k. destruct (bytes_eq_dec k0 k) as [<-|Hne].
+        -- destruct (IH k0) as [[I1 [I2|(I2 & _)]]|[I1 _]]; try contradiction.
+           left. split; [exact I1|]. right. split; [cbn; auto|]. split; [exact E2|].
+           exists b'. split; [exact En|]. rewrite I2. apply get_cw_put_same.
+        -- destruct (IH k) as [[I1 [I2|(I2 & I3 & b2 & I4 & I5)]]|[I1 I2]].
+           ++ left. split; [exact I1|]. left. rewrite I2. apply get_cw_put_other. exact Hne.
+           ++ left. split; [exact I1|]. right. split; [cbn; auto|]. split; [exact I3|].
+              rewrite get_cw_put_other in I4 by exact Hne. exists b2. auto.
+           ++ right. split; [cbn; auto | exact I2].
+      * specialize (IH (put k0 (fresh_cw (to_strings fc (S (length b)) b)) cols) blooms (del k0 ris) (put k0 INCONSISTENT seen) Hnd').
+        destruct (consolidate fc r (put k0 (fresh_cw (to_strings fc (S (length b)) b)) cols) blooms (del k0 ris)) as [[cols' bl'] ri'].
+        cbv zeta in *. intros k. destruct (bytes_eq_dec k0 k) as [<-|Hne].
+        -- right. split; [cbn; auto|].
+           destruct (IH k0) as [[I1 _]|[I1 _]]; [|contradiction]. rewrite I1. apply get_put_same.
+        -- destruct (IH k) as [[I1 [I2|(I2 & I3 & b2 & I4 & I5)]]|[I1 I2]].
+           ++ left. split; [rewrite I1; apply get_put_other; exact Hne|]. left. rewrite I2. apply get_cw_put_other. exact Hne.
+           ++ left. split; [rewrite I1; apply get_put_other; exact Hne|]. right. split; [cbn; auto|].
+              split; [apply (mem_del _ _ _ I3)|]. rewrite get_cw_put_other in I4 by exact Hne. exists b2. auto.
+           ++ right. split; [cbn; auto | exact I2].
+    + specialize (IH cols blooms ris seen Hnd').
+      destruct (consolidate fc r cols blooms ris) as [[cols' bl'] ri']. cbv zeta in *.
+      intros k. destruct (IH k) as [[I1 [I2|(I2 & I3 & I4)]]|[I1 I2]].
+      * left. auto.
+      * left. split; auto. right. split; [cbn; auto | auto].
+      * right. split; [cbn; auto | exact I2].
+Qed.
+
+Lemma get_cw_cons k k0 cw0 (r : list (key * colwip)) :
+  get_cw k ((k0, cw0) :: r) = if bytes_eqb k0 k then cw0 else get_cw k r.
+Proof. unfold get_cw. cbn [get]. destruct (bytes_eqb k0 k); reflexivity. Qed.
+
+Lemma get_encode_cols k (cols : list (key * colwip)) blk : NoDup (map fst cols) ->
+  get k (encode_cols card cols) = Some blk ->
+  blk = encode_col card (get_cw k cols) /\ cw_buf (get_cw k cols) <> [].
+Proof.
+  induction cols as [|[k0 cw0] r IH]; intros Hnd H; [discriminate|].
+  cbn [map fst] in Hnd. inversion Hnd as [|? ? Hnotin Hnd']; subst.
+  cbn [encode_cols] in H. rewrite get_cw_cons.
+  destruct (bytes_eqb k0 k) eqn:E.
+  - apply bytes_eqb_eq in E. subst k. destruct (cw_buf cw0) as [|x l] eqn:Eb.
+    + exfalso. destruct (IH Hnd' H) as [_ Hne]. unfold get_cw in Hne. rewrite (get_notin_keys k0 r Hnotin) in Hne. apply Hne. reflexivity.
+    + cbn [get] in H. rewrite bytes_eqb_refl in H. inversion H. split; [reflexivity | discriminate].
+  - destruct (cw_buf cw0) as [|x l] eqn:Eb.
+    + apply IH; auto.
+    + cbn [get] in H. rewrite E in H. apply IH; auto.
+Qed.
+
+Lemma tonum_vals_shape vs ws : tonum_vals fc vs = Some ws ->
+  Forall (len_is 9) vs -> Forall (len_is 9) ws /\ Forall reclen_ok ws /\ length ws = length vs.
+Proof.
+  revert ws; induction vs as [|v vs IH]; intros ws H Hl.
+  - inversion H. repeat split; constructor.
+  - inversion Hl as [|? ? L Hl']; subst.
+    cbn [tonum_vals] in H. destruct (tonum_val fc v) as [w|] eqn:E; [|discriminate].
+    destruct (tonum_vals fc vs) as [r'|] eqn:E2; [|discriminate]. inversion H; subst ws.
+    destruct (IH r' eq_refl Hl') as (I1 & I2 & I3).
+    assert (len_is 9 w /\ reclen_ok w).
+    { destruct v as [s| | | | |]; cbn in E; try discriminate.
+      - destruct (parse_int s); [inversion E; subst; split; [unfold len_is; rewrite enc_val_length; reflexivity | apply reclen_ok_nostr; reflexivity]|].
+        destruct (pf fc s); inversion E; subst. split; [unfold len_is; rewrite enc_val_length; reflexivity | apply reclen_ok_nostr; reflexivity].
+      - inversion E; subst. split; [exact L | apply reclen_ok_nostr; reflexivity].
+      - inversion E; subst. split; [exact L | apply reclen_ok_nostr; reflexivity]. }
+    repeat split; [constructor; tauto | constructor; tauto | cbn; lia].
+Qed.
+
+Lemma read_col_dict csz n payload : read_col csz n (ENC_DICT, payload) = read_col INCONSISTENT n (ENC_DICT, payload).
+Proof. reflexivity. Qed.
+
+(* one block: after the flush, a constant length still recorded for column k is the length of every
+   record of that column's block, so the reader that is given it returns what the walking reader returns *)
+Theorem block_seen_sound st evs : block_start st -> st_rc st <= st_total st ->
+  evs <> [] -> Forall (fun e => event_ok e = true) evs ->
+  let '(fb, st2) := flush_block fc false card (fold_left (add_event false card) evs st) in
+  forall k blk, get k (fb_cols fb) = Some blk ->
+    get k (st_seen st2) <> None /\
+    forall s, get k (st_seen st2) = Some s -> s <> INCONSISTENT ->
+      read_col s (N.to_nat (fb_n fb)) blk = read_col INCONSISTENT (N.to_nat (fb_n fb)) blk.
+Proof.
+  intros Hs Htot Hne Hok.
+  pose proof (binv_fold fc ff_short card card_u16 evs st [] (binv_start card st Hs) Hok) as B. cbn [app] in B.
+  assert (SB0 : SBInv st []) by (apply sbinv_start; exact Hs).
+  pose proof (sbinv_fold evs st [] (binv_start card st Hs) SB0 Hok) as SB. cbn [app] in SB.
+  set (st1 := fold_left (add_event false card) evs st) in *.
+  destruct B as [B1 B2 B3 B4 B5 B6 B7]. destruct SB as [SB1 _].
+  unfold flush_block.
+  pose proof (consolidate_spec fc (map fst (st_inblock st1)) (st_cols st1) (st_blooms st1) (st_ris st1) B5) as CS.
+  pose proof (consolidate_seen_spec (map fst (st_inblock st1)) (st_cols st1) (st_blooms st1) (st_ris st1) (st_seen st1) B5) as CSS.
+  destruct (consolidate fc (map fst (st_inblock st1)) (st_cols st1) (st_blooms st1) (st_ris st1)) as [[cols2 bl2] ri2].
+  destruct CS as [_ C2]. specialize (C2 B6). cbv zeta in CSS.
+  cbn [fb_cols fb_n st_seen].
+  intros k blk Hget.
+  destruct (get_encode_cols k cols2 blk C2 Hget) as [Hblk Hbuf].
+  specialize (B1 k). unfold ColInv in B1. cbn [fst snd] in B1.
+  specialize (SB1 k). destruct SB1 as [SI1 SI2].
+  pose proof (colview_ingv k evs Hok) as Hing.
+  assert (Hl : length (colview k evs) = length evs) by apply map_length.
+  assert (Hvne : colview k evs <> []) by (intro E; rewrite E in Hl; destruct evs; [congruence|discriminate]).
+  rewrite B3, Nat2N.id.
+  (* the column is in the block *)
+  assert (Hflag : Fs st1 k <> None).
+  { intro Hf. rewrite Hf in B1. destruct B1 as [Hcw _].
+    destruct (CSS k) as [[_ [Hsame|(Hin & _)]]|[Hin _]].
+    - rewrite Hsame in Hbuf. fold (Cs st1 k) in Hbuf. rewrite Hcw in Hbuf. apply Hbuf. reflexivity.
+    - unfold Fs in Hf. apply get_in_keys in Hin as [v Hv]. congruence.
+    - unfold Fs in Hf. apply get_in_keys in Hin as [v Hv]. congruence. }
+  destruct (Fs st1 k) as [fl|] eqn:EF; [|congruence].
+  destruct B1 as [Hb Hd].
+  destruct (CSS k) as [[Hseen Hcols]|[_ Hinc]].
+  2:{ split; [rewrite Hinc; discriminate|]. intros s Hsv Hcons. rewrite Hinc in Hsv. inversion Hsv. congruence. }
+  rewrite Hseen. split; [apply SI1; discriminate|].
+  intros s Hsv Hcons.
+  pose proof (SI2 s Hsv Hcons ltac:(discriminate)) as Hlen.
+  assert (Hs0 : 0 < s).
+  { destruct (colview k evs) as [|v vs]; [congruence|]. inversion Hlen as [|? ? L _]; subst.
+    unfold len_is in L. pose proof (enc_val_nonempty v). destruct (enc_val v); [congruence|]. cbn in L. lia. }
+  subst blk.
+  destruct Hcols as [Hsame|(Hin & Hri & b' & Hnum & Hfresh)].
+  - (* not rewritten *)
+    rewrite Hsame. fold (Cs st1 k). unfold encode_col.
+    destruct ((0 <? cw_cnt (Cs st1 k)) && (cw_cnt (Cs st1 k) <? card)); [apply read_col_dict|].
+    cbn [read_col]. change (ENC_RAW =? ENC_RAW) with true. cbv beta iota.
+    rewrite Hb, <- Hl. rewrite shortcut_sound_gen by assumption.
+    rewrite raw_roundtrip_gen; [reflexivity|].
+    eapply Forall_impl; [|exact Hing]. intros v Hv. apply reclen_ok_wf, ingv_wf, Hv.
+  - (* converted to numbers: the range index says the column holds a number, so the length is 9 *)
+    rewrite Hfresh. unfold encode_col, fresh_cw. cbn [cw_cnt cw_buf andb N.ltb N.compare].
+    change (0 <? 0) with false. cbn [andb].
+    cbn [read_col]. change (ENC_RAW =? ENC_RAW) with true. cbv beta iota.
+    fold (Cs st1 k) in Hnum. rewrite Hb in Hnum.
+    assert (Hfuel : (length (colview k evs) < S (length (concat (map enc_val (colview k evs)))))%nat).
+    { clear. induction (colview k evs) as [|v vs IH]; cbn; [lia|]. rewrite app_length.
+      pose proof (enc_val_nonempty v). destruct (enc_val v); [congruence|]. cbn. lia. }
+    rewrite (to_numbers_vals fc ff_short _ _ Hfuel Hing) in Hnum.
+    destruct (tonum_vals fc (colview k evs)) as [ws|] eqn:Et; [|discriminate].
+    cbn [option_map] in Hnum. inversion Hnum; subst b'.
+    assert (Hs9 : s = 9).
+    { pose proof (B7 k Hri) as Hn. apply existsb_exists in Hn as (v & Hv & Hnv).
+      rewrite Forall_forall in Hlen. specialize (Hlen v Hv). unfold len_is in Hlen. rewrite enc_val_length in Hlen.
+      destruct v; try discriminate; cbn in Hlen; lia. }
+    subst s.
+    destruct (tonum_vals_shape _ _ Et Hlen) as (W1 & W2 & W3).
+    rewrite <- Hl, <- W3.
+    rewrite shortcut_sound_gen by assumption.
+    rewrite raw_roundtrip_gen by assumption. reflexivity.
+Qed.
+
+(* a constant length never turns into another constant length, over events, flushes and blocks *)
+Lemma seen_event_mono k rc total e flag cur s :
+  seen_event k rc total e flag cur = Some s -> s <> INCONSISTENT -> cur = None \/ cur = Some s.
+Proof.
+  unfold seen_event, seen_field. intros H Hc. destruct (get k e) as [v|].
+  - injection H as H. destruct (seen_val_mono _ _ _ _ H Hc) as [[Hx|Hx] _].
+    + destruct (match flag with Some _ => false | None => negb (rc =? 0) end); [discriminate | auto].
+    + destruct (match flag with Some _ => false | None => negb (rc =? 0) end); [|auto].
+      injection Hx as Hx. destruct (seen_val_mono _ _ _ _ Hx Hc) as [Hy _]. exact Hy.
+  - destruct flag as [[|]|]; auto. injection H as H. destruct (seen_val_mono _ _ _ _ H Hc) as [Hy _]. exact Hy.
+Qed.
+
+Lemma seen_event_none k rc total e flag cur : seen_event k rc total e flag cur = None -> cur = None.
+Proof.
+  unfold seen_event, seen_field. destruct (get k e); [discriminate|]. destruct flag as [[|]|]; auto; discriminate.
+Qed.
+
+Lemma mono_fold evs : forall st done, BInv card st done -> Forall (fun e => event_ok e = true) evs ->
+  forall k s, get k (st_seen (fold_left (add_event false card) evs st)) = Some s -> s <> INCONSISTENT ->
+  get k (st_seen st) = None \/ get k (st_seen st) = Some s.
+Proof.
+  induction evs as [|e evs IH]; intros st done B H k s Hs Hc; cbn [fold_left] in Hs; [auto|].
+  inversion H as [|? ? He Hes]; subst.
+  pose proof (binv_step fc ff_short card card_u16 st done e B He) as B'.
+  destruct B as [_ B2 _ _ B5 _ _].
+  destruct (add_event_seen card st e B2 B5) as (E1 & _).
+  destruct (IH _ _ B' Hes k s Hs Hc) as [Hn|Hn]; rewrite E1 in Hn.
+  - left. eapply seen_event_none. exact Hn.
+  - eapply seen_event_mono; eauto.
+Qed.
+
+Lemma flush_seen_mono st1 evs : BInv card st1 evs -> forall k,
+  (forall s, get k (st_seen (snd (flush_block fc false card st1))) = Some s -> s <> INCONSISTENT -> get k (st_seen st1) = Some s) /\
+  (get k (st_seen (snd (flush_block fc false card st1))) = None -> get k (st_seen st1) = None).
+Proof.
+  intros [_ _ _ _ B5 _ _] k. unfold flush_block.
+  pose proof (consolidate_seen_spec (map fst (st_inblock st1)) (st_cols st1) (st_blooms st1) (st_ris st1) (st_seen st1) B5) as CSS.
+  destruct (consolidate fc (map fst (st_inblock st1)) (st_cols st1) (st_blooms st1) (st_ris st1)) as [[cols2 bl2] ri2].
+  cbv zeta in CSS. cbn [snd st_seen].
+  destruct (CSS k) as [[Hs _]|[_ Hs]]; rewrite Hs; split; auto; try discriminate.
+  intros s H Hc. inversion H. congruence.
+Qed.
+
+Lemma flush_block_start st1 evs : BInv card st1 evs -> block_start (snd (flush_block fc false card st1)).
+Proof.
+  intros [_ _ _ _ B5 B6 _]. unfold flush_block.
+  pose proof (consolidate_spec fc (map fst (st_inblock st1)) (st_cols st1) (st_blooms st1) (st_ris st1) B5) as CS.
+  destruct (consolidate fc (map fst (st_inblock st1)) (st_cols st1) (st_blooms st1) (st_ris st1)) as [[cols2 bl2] ri2].
+  destruct CS as [_ C2]. specialize (C2 B6).
+  unfold block_start. cbn [snd st_inblock st_ris st_rc st_ts st_cols]. repeat split; auto.
+  - intros k. apply get_cw_reset.
+  - rewrite map_map. cbn [fst]. exact C2.
+Qed.
+
+Definition seg_ok (blocks : list (list event)) : Prop :=
+  Forall (fun evs => evs <> [] /\ Forall (fun e => event_ok e = true) evs) blocks.
+
+Lemma mono_blocks blocks : forall st, block_start st -> seg_ok blocks ->
+  forall k s, get k (st_seen (snd (ingest_blocks fc false card st blocks))) = Some s -> s <> INCONSISTENT ->
+  get k (st_seen st) = None \/ get k (st_seen st) = Some s.
+Proof.
+  induction blocks as [|b r IH]; intros st Hs Hok k s H Hc; cbn [ingest_blocks] in H; [auto|].
+  inversion Hok as [|? ? [Hne Hb] Hr]; subst.
+  pose proof (binv_fold fc ff_short card card_u16 b st [] (binv_start card st Hs) Hb) as B. cbn [app] in B.
+  pose proof (flush_block_start _ _ B) as Hs1.
+  destruct (flush_seen_mono _ _ B k) as [M1 M2].
+  destruct (flush_block fc false card (fold_left (add_event false card) b st)) as [fb st1] eqn:Ef.
+  cbn [snd] in *.
+  specialize (IH st1 Hs1 Hr k s).
+  destruct (ingest_blocks fc false card st1 r) as [fbs st2]. cbn [snd] in *.
+  destruct (IH H Hc) as [Hn|Hn].
+  - specialize (M2 Hn). destruct (get k (st_seen st)) as [c|] eqn:E0; auto.
+    (* an entry never disappears *)
+    exfalso. clear -M2 E0 Hb Hs card_u16 ff_short.
+    assert (G : forall evs st done, BInv card st done -> Forall (fun e => event_ok e = true) evs ->
+              get k (st_seen (fold_left (add_event false card) evs st)) = None -> get k (st_seen st) = None).
+    { induction evs as [|e evs IHe]; intros st0 done B0 H0 Hn0; cbn [fold_left] in Hn0; auto.
+      inversion H0 as [|? ? He Hes]; subst.
+      pose proof (binv_step fc ff_short card card_u16 st0 done e B0 He) as B'.
+      specialize (IHe _ _ B' Hes Hn0).
+      destruct B0 as [_ B2 _ _ B5 _ _]. destruct (add_event_seen card st0 e B2 B5) as (E1 & _).
+      rewrite E1 in IHe. eapply seen_event_none. exact IHe. }
+    rewrite (G b st [] (binv_start card st Hs) Hb M2) in E0. discriminate.
+  - eapply mono_fold; eauto. apply (binv_start card st Hs).
+Qed.
+
+(* FULL STATEMENT for the shortcut: whatever the events of a segment (no guard on the values), if
+   AllSeenColumnSizes ends with a constant length s for column k, then in every flushed block that has
+   the column, the reader that is given s returns exactly what the length-walking reader returns *)
+Theorem segment_seen_sound blocks : forall st, block_start st -> seg_ok blocks ->
+  forall k s, get k (st_seen (snd (ingest_blocks fc false card st blocks))) = Some s -> s <> INCONSISTENT ->
+  forall fb blk, In fb (fst (ingest_blocks fc false card st blocks)) -> get k (fb_cols fb) = Some blk ->
+    read_col s (N.to_nat (fb_n fb)) blk = read_col INCONSISTENT (N.to_nat (fb_n fb)) blk.
+Proof.
+  induction blocks as [|b r IH]; intros st Hs Hok k s H Hc fb blk Hin Hg; cbn [ingest_blocks] in *; [destruct Hin|].
+  inversion Hok as [|? ? [Hne Hb] Hr]; subst.
+  pose proof (binv_fold fc ff_short card card_u16 b st [] (binv_start card st Hs) Hb) as B. cbn [app] in B.
+  pose proof (flush_block_start _ _ B) as Hs1.
+  assert (Htot : st_rc st <= st_total st) by (destruct Hs as (_ & _ & H3 & _); rewrite H3; lia).
+  pose proof (block_seen_sound st b Hs Htot Hne Hb) as BS.
+  destruct (flush_block fc false card (fold_left (add_event false card) b st)) as [fb0 st1] eqn:Ef.
+  cbn [snd] in *.
+  pose proof (mono_blocks r st1 Hs1 Hr k s) as MB.
+  specialize (IH st1 Hs1 Hr k s).
+  destruct (ingest_blocks fc false card st1 r) as [fbs st2]. cbn [fst snd] in *.
+  destruct Hin as [<-|Hin].
+  - destruct (BS k blk Hg) as [Hnn Hread].
+    destruct (MB H Hc) as [Hn|Hn]; [contradiction|]. apply Hread; assumption.
+  - apply IH; assumption.
+Qed.
+
+End SeenSegment.
+
+Theorem seen_size_sound (fc : fconv) :
+  (forall b, N.of_nat (length (ff fc b)) < 65533) ->
+  forall card, card < 65536 -> forall blooms (blocks : list (list event)),
+  Forall (fun evs => evs <> [] /\ Forall (fun e => event_ok e = true) evs) blocks ->
+  forall k s, get k (st_seen (snd (ingest_blocks fc false card (init_store blooms) blocks))) = Some s ->
+  s <> INCONSISTENT ->
+  forall fb blk, In fb (fst (ingest_blocks fc false card (init_store blooms) blocks)) ->
+    get k (fb_cols fb) = Some blk ->
+    read_col s (N.to_nat (fb_n fb)) blk = read_col INCONSISTENT (N.to_nat (fb_n fb)) blk.
+Proof.
+  intros Hff card Hc blooms blocks Hok.
+  apply (segment_seen_sound fc Hff card Hc blocks (init_store blooms) (init_block_start blooms) Hok).
+Qed.
+
+Lemma seen_size_after_repair :
+  seen_after false w_seen_text ka = Some INCONSISTENT /\
+  seen_after false w_seen_late ka = Some INCONSISTENT /\
+  seen_after false w_seen_late kb = Some 9.
+Proof. exact (conj (proj1 (proj2 seen_witness)) (proj2 (proj2 (proj2 seen_witness)))). Qed.
